@@ -112,6 +112,22 @@ def gen(cs, rnd, n):
                          {"argv": argv, "stdin": ""}]})
 
 
+def gen_seam(cs, rnd):
+    """Records that are equal and not the same at the seam of A and B - members in another order, equal elements under different records - with
+    macros (given by --set, written in the expression) whose value shows the difference: nothing computed for a record is kept for the next."""
+    r1 = PL.parse_ast('{"id": 1, "g": "a", "n": 5, "items": [{"n": 7}, {"n": 8}]}')
+    r1p = PL.parse_ast('{"items": [{"n": 7}, {"n": 8}], "n": 5, "g": "a", "id": 1}')
+    r2 = PL.parse_ast('{"id": 2, "g": "b", "n": 5, "items": [{"n": 8}, {"n": 9}]}')
+    r3 = PL.parse_ast('{"id": 3, "g": "c", "n": 5, "items": [{"n": 8}]}')
+    for argv in (["--set=@me=(keys .)", "--select=@me =k", "--select=(stringify .) =s"], ["--set=@me=(stringify .)", "--filter=(string? @me)", "--select=@me =s"],
+                 ["--set=@par=^.g", "--split-by=.items", "--select=@par =p", "--select=. =e"], ["--set=@own=(concat ^.g (stringify .n))", "--split-by=.items", "--select=@own =o"],
+                 ["--select=(define \"me\" (keys .) @me) =k"], ["--set=v=1", "--set=@w=(+ :v .id)", "--select=@w =w", "--select=(set \"v\" 10 @w) =x"]):
+        for A, B in (([r1], [r1p]), ([r1p, r1], [r1p, r1]), ([r1], [r2]), ([r2], [r3, r1]), ([r1, r2], [r3])):
+            da, db = PL.input_bytes(A), PL.input_bytes(B)
+            cs.add({"kind": "rel", "rel": "concat", "cfg": PL.mkcfg(), "input": [], "json": True,
+                    "runs": [{"argv": argv, "stdin": hexs(da + db)}, {"argv": argv, "stdin": hexs(da)}, {"argv": argv, "stdin": hexs(db)}, {"argv": argv, "stdin": ""}]})
+
+
 def check(tier, seed, replay=None):
     chk = Check("C11", tier, seed)
     chk.rule = ("a case is a triple of real runs (A.B, A, B) of one stateless pipeline; B is fresh, a permutation of A, or repetitions of rows of A; "
@@ -128,6 +144,7 @@ def check(tier, seed, replay=None):
         quick = tier == "quick"
         PC.model_check(chk, ["uniq", "split"], 3 if quick else 4, ["Local"], workers=8 if quick else 12)
         gen(cs, rnd, 400 if quick else 10000)
+        gen_seam(cs, rnd)
     per, recs = PC.run_and_validate(chk, jvh, cs, "c11", nproc=8 if tier == "quick" else 14)
     PC.summarize(chk, cs, per, lambda rc: len(rc["runs"][0]["argv"]) >= 1 and len(rc["runs"][1]["stdin"]) > 0 and len(rc["runs"][2]["stdin"]) > 0)
     return chk.finish()
